@@ -4,6 +4,9 @@ From PV Require Import Lib.AmmoBytes.
 Import ListNotations.
 Local Open Scope N_scope.
 
+Lemma frev_rev {A} (l : list A) : frev l = rev l.
+Proof. unfold frev. symmetry. apply rev_alt. Qed.
+
 (* ---------- beq ---------- *)
 Lemma beq_refl a : beq a a = true.
 Proof. induction a; cbn [beq]; [reflexivity|]. rewrite N.eqb_refl, IHa. reflexivity. Qed.
@@ -150,7 +153,7 @@ Qed.
 
 Lemma rtrim_app_blank x b : forallb asp b = true -> rtrim (x ++ b) = rtrim x.
 Proof.
-  intros H. unfold rtrim. rewrite rev_app_distr.
+  intros H. unfold rtrim. rewrite !frev_rev. rewrite rev_app_distr.
   rewrite ltrim_rev_blank_app; [reflexivity|]. rewrite forallb_rev. exact H.
 Qed.
 
@@ -168,7 +171,7 @@ Lemma tight_widths s :
 Proof.
   unfold tight. intros H. apply andb_prop in H. destruct H as [H H2].
   apply andb_prop in H. destruct H as [_ H1].
-  apply Nat.eqb_eq in H1, H2. auto.
+  apply Nat.eqb_eq in H1, H2. rewrite frev_rev in H2. auto.
 Qed.
 
 Lemma trim_wrap lead text trail :
@@ -180,7 +183,7 @@ Proof.
   unfold trim. rewrite ltrim_blank_app by exact Hl.
   rewrite ltrim_step, space_width_app, W1 by assumption.
   rewrite rtrim_app_blank by exact Ht.
-  unfold rtrim. rewrite ltrim_rev_step, W2. apply rev_involutive.
+  unfold rtrim. rewrite !frev_rev. rewrite ltrim_rev_step, W2. apply rev_involutive.
 Qed.
 
 Lemma trim_wrap_opt lead text trail :
